@@ -413,6 +413,22 @@ theorem triPixels_eq_run (t : Tri) (style : TriStyle) (bb : Rect)
   rw [triPixels_toListFuel_eq] at hpx
   exact (listFuel_run _ it px hpx hlt).unique hpix
 
+/-- Whatever the budget: the model's `pixels()` of a styled triangle is the first `budget` pixels of
+the coloured scanlines of the run walked point by point (so `TriPixelBudgetOK` fails only by
+truncation). -/
+theorem triPixels_prefix_run (t : Tri) (style : TriStyle) (bb : Rect)
+    (hbb : triStyledBoundingBox t style = some bb) :
+    ∃ L, triScanlineRun t style = some L ∧
+      triPixels t style = some ((L.flatMap (typedPixels style.fillColor style.effectiveStrokeColor)).take
+        (3 * (bb.size.w + 2 * style.strokeWidth + 4) * (bb.size.h + 1) + 2)) := by
+  obtain ⟨li, hli⟩ := triScanlines_total t style
+  obtain ⟨L, hL, hrun, -⟩ := triLines li
+  refine ⟨L, by unfold triScanlineRun; rw [hli]; exact hL, ?_⟩
+  obtain ⟨it, hit, hpix⟩ := triPix_new t style li hli L hrun
+  unfold triPixels
+  simp only [hbb, hit, Option.bind_eq_bind, Option.bind_some]
+  rw [triPixels_toListFuel_eq, hpix.listFuel_take]
+
 theorem isTransparent_colors {style : TriStyle} (h : style.isTransparent = true) :
     style.fillColor = none ∧ style.effectiveStrokeColor = none := by
   unfold TriStyle.isTransparent at h
